@@ -160,6 +160,10 @@ def _child_main(sock, i: int, ps: dict, root: str, cfg: dict) -> None:
         S.install()
         how = "exit"
         S.ask("start", "<proc>")
+        if cfg.get("points"):
+            from scriptplan.cli import plan as _plan_mod
+
+            seams_mod.install_call_points(S, _plan_mod)
         try:
             from scriptplan.cli import plan
 
@@ -214,6 +218,7 @@ class _Proc:
         self.hang = False
         self.last_fault_ev = -1
         self.last_rec = None
+        self.npoint = 0
 
 
 def _recv(p: _Proc, timeout: float):
@@ -257,14 +262,16 @@ def _run(spec, tape, root, event_timeout):
     collide = bool(spec.get("collide"))
     t0 = float(spec.get("t0", T0))
     name_seeds = [("c" if collide else f"p{i}") + ":" + str(spec.get("name_salt", 0)) for i in range(n)]
-    cfg = {"t0": t0, "name_seeds": name_seeds, "tz": spec.get("tz")}
+    cfg = {"t0": t0, "name_seeds": name_seeds, "tz": spec.get("tz"), "points": bool(spec.get("points"))}
     initial = listing(root)
 
     # fault plan (generation mode only; replay reads the tape)
     plan: dict[int, dict[int, str | None]] = {i: {} for i in range(n)}
     persist = spec.get("persist")
     pin = spec.get("pin")  # systematic sweep: the ord-th applicable fault at event ev of process proc, nothing else
-    if tape.generating and pin:
+    if tape.generating and pin and "point" in pin:
+        pass  # SIGINT at the point-th asynchronous-exception point (`point` / `after` event) of process proc
+    elif tape.generating and pin:
         plan[pin["proc"]][pin["ev"]] = pin["ord"]
     elif tape.generating and kinds:
         rng = tape.rng
@@ -388,7 +395,11 @@ def _run(spec, tape, root, event_timeout):
             if tape.generating:
                 want = p.nev in plan[p.i] or plan[p.i].get(-1)
 
-                def fgen(rng, want=want, applicable=applicable, p=p):
+                def fgen(rng, want=want, applicable=applicable, p=p, op=op):
+                    if pin and "point" in pin:
+                        if p.i == pin["proc"] and op in ("point", "after") and p.npoint == pin["point"] and ("sigint", None) in applicable:
+                            return 1 + applicable.index(("sigint", None))
+                        return 0
                     if pin:
                         if p.i == pin["proc"] and p.nev == pin["ev"] and applicable:
                             return 1 + pin["ord"] % len(applicable)
@@ -415,8 +426,10 @@ def _run(spec, tape, root, event_timeout):
                 else:
                     reply = {"a": "err", "errno": fault[1], "frac": [0.0, 0.5, 0.9][tape.draw(3)]}
                 p.faults.append({"ev": p.nev, "seq": seq, "op": op, "path": path, "kind": fault[0], "arg": fault[1]})
+                if op in ("point", "after"):
+                    p.faults[-1]["at"] = ev.get("callee") or ev.get("of") or ""
                 p.last_fault_ev = p.nev
-                key = f"{fault[0]}:{fault[1]}"
+                key = f"{fault[0]}:{fault[1]}" + ("@point" if op in ("point", "after") else "")
                 stats["faults_fired"][key] = stats["faults_fired"].get(key, 0) + 1
             if not fc and persist and (persist.get("proc") is None or persist["proc"] == p.i) and p.nev >= persist["from"] and op in PERSIST[persist["cls"]] and not path.startswith("<"):
                 fault = PERSIST[persist["cls"]][op]
@@ -447,6 +460,9 @@ def _run(spec, tape, root, event_timeout):
             events.append(rec)
             seq += 1
             p.nev += 1
+            if op in ("point", "after"):
+                p.npoint += 1
+                stats["point_events"] = stats.get("point_events", 0) + 1
             ok = reply is not None and reply["a"] in ("ok", "short")
             if ok and op in MUTATING:
                 last_mut = p
